@@ -192,3 +192,14 @@ Proof.
   { induction l0 as [|x l0 IH]; intro e; cbn [fold_left sumq]; [ring | rewrite IH; cbn [leval]; ring]. }
   rewrite G. cbn [leval]. ring.
 Qed.
+
+(* variables indexed by three integers (MinGenSet: y[(i, j, c)]) *)
+Definition vkey3z (k : Z * Z * Z) : list N := [Z.to_N (fst (fst k)); Z.to_N (snd (fst k)); Z.to_N (snd k)].
+Definition eqb3z : (Z * Z * Z) -> (Z * Z * Z) -> bool := py_pair_eqb (py_pair_eqb Z.eqb Z.eqb) Z.eqb.
+Lemma eqb3z_eq : forall a b, eqb3z a b = true <-> a = b.
+Proof.
+  intros [[a1 a2] a3] [[b1 b2] b3]. unfold eqb3z, py_pair_eqb; cbn [fst snd]. rewrite !andb_true_iff, !Z.eqb_eq.
+  split; [intros [[-> ->] ->]; reflexivity | intro H; injection H as -> -> ->; repeat split].
+Qed.
+(* max(<non-empty list of ints>) *)
+Definition py_list_max_Z (l : list Z) : Z := match l with [] => 0%Z | x :: r => fold_left Z.max r x end.
